@@ -17,7 +17,7 @@ fn alphabet() -> Vec<Op> {
         Recip, Sqrt, Cbrt, Exp, Exp2, ExpM1, Ln, Log(2.5), Log(2.0), Log(10.0), Log2, Log10, Ln1p, Sin, Cos, SinCosS, SinCosC, Tan, Asin, Acos, Atan, Sinh, Cosh,
         Tanh, Asinh, Acosh, Atanh, SphJ0, SphJ1, SphJ2, Abs, Signum, Neg, Inv, Powi(-2), Powi(0), Powi(1), Powi(2), Powi(3), Powi(5), Powi(-10), Powi(-100), Powi(64), Powf(-30.5), Powf(0.0),
         Powf(1.0), Powf(2.0), Powf(0.5), Powf(2.5), Powf(-1.5), AddF(0.75), SubF(0.75), MulF(-1.5), DivF(2.0), AddAF(0.75), SubAF(0.75), MulAF(-1.5),
-        DivAF(2.0), MulF(0.0), MulF(-0.0), MulAF(0.0), MulAF(-0.0), AddF(-0.0), SubF(0.0), AddAF(-0.0), Add, Sub, Mul, Div, AddA, SubA, MulA, DivA, AddRef, SubRef, MulRef, DivRef, Atan2, Powd, AbsSub, MulAdd, Sum(2), Product(2),
+        DivAF(2.0), MulF(0.0), MulF(-0.0), MulAF(0.0), MulAF(-0.0), AddF(-0.0), SubF(0.0), AddAF(-0.0), DivF(0.0), DivF(-0.0), DivAF(0.0), DivAF(-0.0), DivF(f64::INFINITY), DivF(1e-310), MulF(f64::INFINITY), Powf(3.0), Powf(-3.0), Add, Sub, Mul, Div, AddA, SubA, MulA, DivA, AddRef, SubRef, MulRef, DivRef, Atan2, Powd, AbsSub, MulAdd, Sum(2), Product(2),
     ]
 }
 
@@ -33,6 +33,8 @@ fn single_call(op: Op) -> bool {
 
 fn real_points(op: Op) -> Vec<Vec<f64>> {
     let g: Vec<f64> = match op {
+        // integer-valued float exponents: negative bases are legitimate (the float powf is exact there)
+        Op::Powf(p) if p == 3.0 || p == -3.0 => REAL.to_vec(),
         Op::Sqrt | Op::Ln | Op::Log(_) | Op::Log2 | Op::Log10 | Op::Powf(_) | Op::Powd => POS.to_vec(),
         Op::Ln1p => GTM1.to_vec(),
         Op::Asin | Op::Acos | Op::Atanh => UNIT.to_vec(),
@@ -325,6 +327,19 @@ macro_rules! cmp_checks {
                         $st.transitions += 10;
                         $st.state(hash64(&($name, i, j, va, vb)));
                         $st.nontrivial(hash64(&($name, i, j, va, vb)));
+                        // a number compared with itself (the same object): NaN is not equal to itself
+                        #[allow(clippy::eq_op)]
+                        if vb == 0 && j == 0 {
+                            let (se, sn, sp) = (x == x, x != x, x.partial_cmp(&x));
+                            $st.evaluations += 3;
+                            if se != (a == a) || sn != (a != a) || sp != a.partial_cmp(&a) {
+                                $st.violation(Violation {
+                                    sig: format!("compare with itself {}", $name),
+                                    case: json!({"type": $name, "a": a as f64, "variant_a": va}),
+                                    what: format!("x == x is {se}, x != x is {sn}, partial_cmp(x, x) is {sp:?} for a number with real part {a:e}"),
+                                });
+                            }
+                        }
                         let results: [(&str, bool, bool); 13] = [
                             ("==", x == y, a == b),
                             ("!=", x != y, a != b),
@@ -677,7 +692,7 @@ fn main() {
         mode: cli.mode,
         seed: cli.seed,
         start,
-        rule: "(a) 77 operations (scalar operands 0.0 and -0.0 included) x every type x real grid x 11 operand-part assignments sharing the real parts (constant/absent, generic, +-inf, NaN, 1e300, -1e-300, single NaN slot): real-part bit patterns must coincide; (b) real part vs the same operation on plain floats: within 4 ulp for single-call operations (bit-equal on the current tree), within the bound of the defining expression for the reformulated ones; (c) all ordered pairs of {-inf,-2,-0,+0,1,1',2,+inf,NaN} x 3x3 part variants under == != < <= > >= partial_cmp abs_diff_eq relative_eq ulps_eq and RealField min/max/clamp on the four field types (f32/f64, static/dynamic); is_zero/is_one/is_positive/is_negative/abs/signum on every type; (d) every method of the f32 and f64 instances of DualNum against std on a grid with specials. Non-trivial = operands with non-constant parts.".into(),
+        rule: "(a) 86 operations (scalar operands 0.0, -0.0, infinite and subnormal included, also as divisors; powf with integer-valued exponents at negative bases) x every type x real grid x 11 operand-part assignments sharing the real parts (constant/absent, generic, +-inf, NaN, 1e300, -1e-300, single NaN slot): real-part bit patterns must coincide; (b) real part vs the same operation on plain floats: within 4 ulp for single-call operations (bit-equal on the current tree), within the bound of the defining expression for the reformulated ones; (c) all ordered pairs of {-inf,-2,-0,+0,1,1',2,+inf,NaN} x 3x3 part variants under == != < <= > >= partial_cmp abs_diff_eq relative_eq ulps_eq and RealField min/max/clamp on the four field types (f32/f64, static/dynamic); is_zero/is_one/is_positive/is_negative/abs/signum on every type; (d) every method of the f32 and f64 instances of DualNum against std on a grid with specials. Non-trivial = operands with non-constant parts.".into(),
         assumptions: vec!["on ties min/max/clamp may return either of the two equal operands".into()],
         extra: json!({"axes": axes}),
         exhaustive: true,
